@@ -14,6 +14,12 @@ func init() {
 			return []driver.Variant{{Name: "default", VLimitKB: 12 << 20}}
 		},
 		MinDistinct: 1000,
+		WatchdogMin: func(tier string) int {
+			if tier == "thorough" {
+				return 240
+			}
+			return 90
+		},
 		Finish: func(ev map[string]any) (string, bool) {
 			cover := ev["cover"].(map[string]map[string]struct{})
 			if len(cover["callables_reached"]) < len(cover["callables_enumerated"]) {
